@@ -156,6 +156,16 @@ class Tracker:
                 self.key(nid, value.args[0].args[1]) == self.key(nid, value.args[1]):
             # element i replaced, in place, by the elements of L
             return [('REPLACE', self.key(nid, value.args[1]), value.args[2], {})]
+        if cn == 'np.take' and len(value.args) >= 2 and self.same_place(value.args[0], T):
+            axis = None
+            for k in value.keywords:
+                if k.arg == 'axis':
+                    axis = k.value
+            if axis is None and len(value.args) > 2:
+                axis = value.args[2]
+            return [('SELECT', self.selkey(nid, value.args[1]), None,
+                     {'selector': value.args[1], 'take': True,
+                      'axis': unparse(axis) if axis is not None else None})]
         if cn == 'np.repeat' and value.args and self.same_place(value.args[0], T):
             axis = None
             for k in value.keywords:
@@ -572,6 +582,103 @@ def _record(failures, func, group, ref, m, seq, path, cfg):
 # ---------------------------------------------------------------------------
 # local list expansion, L6 record consistency, derived members
 # ---------------------------------------------------------------------------
+
+def bulk_deletion_view(func):
+    """A view of `func` in which a loop that removes, from the highest index down, the entries
+    selected by an index array E from several records
+
+        for v in E[::-1]:  rec.pop(v); arr = np.delete(arr, v); ...
+
+    is replaced by the removal of the index set E from each record (`rec.pop(E)`,
+    `np.delete(arr, E)`), which is what the loop amounts to.  A record deleted one entry at a
+    time inside such a loop and a record deleted once with `np.delete(arr, E)` after it then
+    produce the same event, DELETE(E).  Loops that do not run in descending order are left as
+    they are (their removals shift later indices: rule T6)."""
+    import copy
+    from .loader import FuncInfo
+    node = copy.deepcopy(func.node)
+    count = [0]
+
+    def descending(it):
+        if isinstance(it, ast.Subscript) and isinstance(it.slice, ast.Slice) and \
+                it.slice.lower is None and it.slice.upper is None and \
+                isinstance(it.slice.step, ast.UnaryOp) and \
+                isinstance(it.slice.step.op, ast.USub) and \
+                isinstance(it.slice.step.operand, ast.Constant) and \
+                it.slice.step.operand.value == 1:
+            return it.value
+        if isinstance(it, ast.Call) and dotted(it.func) == 'reversed' and it.args:
+            return it.args[0]
+        if isinstance(it, ast.Call) and dotted(it.func) == 'sorted' and it.args and any(
+                k.arg == 'reverse' and isinstance(k.value, ast.Constant) and
+                k.value.value is True for k in it.keywords):
+            return it.args[0]
+        return None
+
+    def only_deletions(stmts, v):
+        for st in stmts:
+            if isinstance(st, ast.If):
+                if any(isinstance(x, ast.Name) and x.id == v for x in ast.walk(st.test)):
+                    return False
+                if not only_deletions(st.body, v) or not only_deletions(st.orelse, v):
+                    return False
+                continue
+            uses = [x for x in ast.walk(st) if isinstance(x, ast.Name) and x.id == v]
+            if not uses:
+                return False
+            ok = False
+            if isinstance(st, ast.Expr) and isinstance(st.value, ast.Call) and \
+                    isinstance(st.value.func, ast.Attribute) and st.value.func.attr == 'pop' \
+                    and len(st.value.args) == 1 and isinstance(st.value.args[0], ast.Name):
+                ok = True
+            if isinstance(st, ast.Assign) and isinstance(st.value, ast.Call) and \
+                    dotted(st.value.func) == 'np.delete' and len(st.value.args) >= 2 and \
+                    isinstance(st.value.args[1], ast.Name) and st.value.args[1].id == v:
+                ok = True
+            if isinstance(st, ast.Delete) and all(
+                    isinstance(t, ast.Subscript) and isinstance(t.slice, ast.Name) and
+                    t.slice.id == v for t in st.targets):
+                ok = True
+            if not ok or len(uses) != 1:
+                return False
+        return True
+
+    class Rw(ast.NodeTransformer):
+        def visit_For(self, lp):
+            self.generic_visit(lp)
+            if not isinstance(lp.target, ast.Name) or lp.orelse:
+                return lp
+            src = descending(lp.iter)
+            if src is None or not only_deletions(lp.body, lp.target.id):
+                return lp
+            count[0] += 1
+            tmp = '_removed_%d' % count[0] if not isinstance(src, ast.Name) else src.id
+            out = []
+            if not isinstance(src, ast.Name):
+                a = ast.Assign(targets=[ast.Name(id=tmp, ctx=ast.Store())], value=src)
+                out.append(ast.copy_location(a, lp))
+
+            class Sub(ast.NodeTransformer):
+                def visit_Name(self, n):
+                    if n.id == lp.target.id and isinstance(n.ctx, ast.Load):
+                        return ast.copy_location(ast.Name(id=tmp, ctx=ast.Load()), n)
+                    return n
+            for st in lp.body:
+                out.append(Sub().visit(st))
+            return out
+
+        def visit_FunctionDef(self, n):
+            if n is node:
+                self.generic_visit(n)
+            return n
+
+    node = Rw().visit(node)
+    if not count[0]:
+        return func
+    ast.fix_missing_locations(node)
+    clone = FuncInfo(func.qualname, node, func.module, func.cls, func.kind)
+    return clone
+
 
 def local_list_pushes(func, name, before_nid):
     """Payloads appended to the local list `name` (initialised as [] once, appended
